@@ -1,8 +1,10 @@
 /-
   C15 — the bundled memory and port types behave as plain byte stores with safe bounds.
 
-  Theorems about the hand-written model Z80.Spec.MemIO (tied to memio.go by the `memio` correspondence: the same
-  operation sequences run on the real DumbMemory/DumbIO/MapMemory values and on the model, every answer compared).
+  Theorems about the store functions and the heap model of Z80.Spec.MemIO.  The store functions are tied to memio.go by
+  Props/C15Gen.lean (each method, translated from the source on every run, IS the model's function — for all inputs);
+  the heap/handle bookkeeping by the `memio` correspondence (the same operation sequences run on the real
+  DumbMemory/DumbIO/MapMemory values, on this model, and on the model driven by the translated methods).
     * slices (DumbMemory, DumbIO): for EVERY history of Set/Put (resp. Out), reading address a returns the value
       last written there, else 0; an address beyond the slice reads 0 and ignores writes — for every slice length;
     * MapMemory: the same with default 0xC7, Put wrapping past 0xFFFF;
@@ -10,7 +12,6 @@
       Clear empties; Equal is true exactly for identical contents (initialised maps), false for any non-MapMemory.
 -/
 import Z80.Spec.MemIO
-import Z80.Gen.MemioSource
 
 namespace Z80.Props.C15
 open Z80 Z80.Spec.MemIO
@@ -331,27 +332,8 @@ theorem C15_equal_maps (w : World) (r a i j : Nat) (m₁ m₂ : Assoc)
   simp [step, hr, ha, h1, h2]
 
 
--- the source the hand-written model was written from ---------------------------------------------------------
+-- (the tie of these functions to memio.go is Props/C15Gen.lean: every translated method IS the model's function)
 
-/-- memio.go as it was when Z80/Spec/MemIO.lean was written: every function, gofmt-normalised, comments dropped -/
-def pinnedMemioSource : List (String × String × String) := [
-  ("DumbIO.In", "func(addr uint8) uint8", "{\n\tif int(addr) >= len(dio) {\n\t\treturn 0\n\t}\n\treturn dio[addr]\n}"),
-  ("DumbIO.Out", "func(addr uint8, value uint8)", "{\n\tif int(addr) >= len(dio) {\n\t\treturn\n\t}\n\tdio[addr] = value\n}"),
-  ("DumbMemory.Get", "func(addr uint16) uint8", "{\n\tif int(addr) >= len(dm) {\n\t\treturn 0\n\t}\n\treturn dm[addr]\n}"),
-  ("DumbMemory.Put", "func(addr uint16, data ...uint8) DumbMemory", "{\n\tcopy(dm[int(addr):int(addr)+len(data)], data)\n\treturn dm\n}"),
-  ("DumbMemory.Set", "func(addr uint16, value uint8)", "{\n\tif int(addr) >= len(dm) {\n\t\treturn\n\t}\n\tdm[addr] = value\n}"),
-  ("MapMemory.Clear", "func()", "{\n\tfor k := range mm {\n\t\tdelete(mm, k)\n\t}\n}"),
-  ("MapMemory.Clone", "func() MapMemory", "{\n\tcl := MapMemory{}\n\tfor k, v := range mm {\n\t\tcl[k] = v\n\t}\n\treturn cl\n}"),
-  ("MapMemory.Equal", "func(a0 interface{}) bool", "{\n\ta, ok := a0.(MapMemory)\n\tif !ok {\n\t\treturn false\n\t}\n\treturn reflect.DeepEqual(mm, a)\n}"),
-  ("MapMemory.Get", "func(addr uint16) uint8", "{\n\tv, ok := mm[addr]\n\tif !ok {\n\t\treturn 0xC7\n\t}\n\treturn v\n}"),
-  ("MapMemory.Put", "func(addr uint16, data ...uint8) MapMemory", "{\n\tfor _, v := range data {\n\t\tmm[addr] = v\n\t\taddr++\n\t}\n\treturn mm\n}"),
-  ("MapMemory.Set", "func(addr uint16, v uint8)", "{\n\tmm[addr] = v\n}")
-]
-
-/-- the functions of memio.go in the CURRENT tree (extracted by go2lean on this run) are textually the ones the model
-    was written from.  (The behavioural tie is the operation-sequence correspondence; this theorem makes any edit of
-    memio.go visible as a broken obligation even where the correspondence happens not to exercise it.) -/
-theorem C15_source_pinned : Gen.memioSource = pinnedMemioSource := by decide
 
 -- non-vacuity: a short slice, a write beyond it, a wrapping Put
 example : sliceGet (sliceAfter 4 [.set 9 0x55#8, .set 2 0x11#8]) 2 = 0x11#8 ∧
